@@ -449,11 +449,28 @@ def static_of(ctx, x):
     return ctx.get(x, "$is_static").e
 
 
+CHAIN_ELEM = z3.Function("chain.elem", IntS, IntS, IntS)   # i-th element of the upstream walk from x0 (0 = the input)
+CHAIN_LEN = z3.Function("chain.len", IntS, IntS)          # number of elements, the last one is the output
+
+
+def unconnected_or_static_mismatch(ctx, x0):
+    """C19 rules 1+2 for the input x0: its chain ends at a missing source, or it is static and its output is not"""
+    return Or(Not(CONN(x0)), And(static_of(ctx, x0), Not(static_of(ctx, ROOT2(x0)))))
+
+
+def dead_link(ctx, x0):
+    """C19 rule 5 for the (connected) input x0: a pull-only element lies upstream of one that must be notified by pushes"""
+    n = CHAIN_LEN(x0)
+    a, b = z3.Ints("ds_a ds_b")
+    pull = lambda x: ctx.get(x, "$needs_pull").e
+    push = lambda x: ctx.get(x, "$needs_push").e
+    return z3.Exists([a, b], And(0 <= a, a < b, b < n, pull(CHAIN_ELEM(x0, n - 1 - a)), push(CHAIN_ELEM(x0, n - 1 - b))))
+
+
 def register_validation(reg):
     # ------------------------------------------------------------------ _check_input_connected (C19.1)
     def cic_bad(ctx):
-        x0 = ctx.inp.e
-        return Or(Not(CONN(x0)), And(static_of(ctx.old, x0), Not(static_of(ctx.old, ROOT2(x0)))))
+        return unconnected_or_static_mismatch(ctx.old, ctx.inp.e)
 
     def cic_inv(ctx):
         x0 = ctx.inp.e
@@ -482,7 +499,7 @@ def register_validation(reg):
         e = strip_none(cur).e
         i = z3.Int(sv.uid("ci"))
         x0 = ctx.inp.e
-        return And(Not(is_none(cur)), e > 0, ch.n >= 1, ch.n <= CLEN(x0), e == ELEM(x0, ch.n - 1),
+        return And(Not(is_none(cur)), e > 0, CONN(e), ch.n >= 1, ch.n <= CLEN(x0), e == ELEM(x0, ch.n - 1),
                    z3.ForAll([i], Implies(And(0 <= i, i < ch.n), And(Not(is_none(ch.at(i))), strip_none(ch.at(i)).e == ELEM(x0, i)))))
 
     def rev(ctx, k):
@@ -511,8 +528,7 @@ def register_validation(reg):
                    Implies(fi >= 0, pull(ctx, rev(ctx, fi))),
                    z3.ForAll([a], Implies(And(0 <= a, a < ctx.k, pull(ctx, rev(ctx, a))), fi >= 0)))
 
-    ELEM = z3.Function("chain.elem", IntS, IntS, IntS)   # i-th element of the upstream walk from x0 (0 = the input)
-    CLEN = z3.Function("chain.len", IntS, IntS)          # number of elements, the last one is the output
+    ELEM, CLEN = CHAIN_ELEM, CHAIN_LEN
 
     def elem_axioms(ctx):
         x0, i = z3.Ints("el_x el_i")
@@ -526,17 +542,13 @@ def register_validation(reg):
         ]
 
     def dead_spec(ctx):
-        """a pull-only element lies upstream of an element that must be notified by pushes (positions counted from the output)"""
-        x0 = ctx.inp.e
-        n = CLEN(x0)
-        a, b = z3.Ints("ds_a ds_b")
-        c0 = ctx.old
-        return z3.Exists([a, b], And(0 <= a, a < b, b < n, pull(c0, ELEM(x0, n - 1 - a)), push(c0, ELEM(x0, n - 1 - b))))
+        return dead_link(ctx.old, ctx.inp.e)
 
     reg.add(Contract(
         f"{S}._check_dead_links", props=["C19.2"], params={"comp": TRef("IComponent"), "inp": TRef("IInput")},
-        requires=lambda ctx: And(isa("IInput", ctx.inp.e), wf_graph(ctx), ctx.inp.e > 0),
-        modifies=lambda ctx: [], axioms=elem_axioms,
+        # only this input's chain has to be connected (_check_input_connected ran before): no global assumption
+        requires=lambda ctx: And(isa("IInput", ctx.inp.e), CONN(ctx.inp.e), ctx.inp.e > 0),
+        modifies=lambda ctx: [], axioms=lambda ctx: elem_axioms(ctx) + conn_axioms(ctx),
         raises={"FinamConnectError": dead_spec}, must_raise={"FinamConnectError": dead_spec}, raise_frame_empty=True,
         loops={1: dict(invariant=cdl_inv1, decreases=lambda ctx: DEPTH(strip_none(ctx.local("inp")).e),
                        locals={"inp": TRef(None), "chain": TList(TOpt(TRef(None)))}),
@@ -793,7 +805,11 @@ def register_run2(reg):
 
 _MON = {"name": "run-monitor", "script": "replay/drivers/seq_sched.py", "args": ["--json"], "timeout": 3000}
 BOUNDED = {p: [_MON] for p in ("C01", "C02", "C03", "C04", "C05")}
+BOUNDED["C19"] = [{"name": "validation-topologies", "script": "replay/drivers/bnd_validate.py", "args": ["--json"], "timeout": 1200}]
 REPLAY = {
+    f"{S}._check_input_connected": "bnd_validate.py", f"{S}._check_dead_links": "bnd_validate.py", f"{S}._check_branching": "bnd_validate.py",
+    f"{S}._check_missing_components": "bnd_validate.py", f"{S}._collect_inputs_outputs": "bnd_validate.py",
+    f"{S}.Composition._validate_composition": "bnd_validate.py",
     f"{S}._find_dependencies": "seq_sched.py", f"{S}.Composition._update_recursive": "seq_sched.py",
     f"{S}.Composition.run": "seq_sched.py", f"{S}.Composition._finalize_components": "seq_sched.py",
     f"{S}.Composition._check_status": "seq_sched.py",
@@ -931,13 +947,18 @@ def comps_in_status_from(ctx, lo, names):
 # =================================================================================================
 # _check_branching (C19.3): worklist over the downstream tree
 # =================================================================================================
+BRANCH_BAD = z3.Function("Branch.bad", IntS, BoolS, BoolS)
+BRANCH_BAD_CHILD = z3.Function("Branch.bad.child", IntS, BoolS, IntS)   # witness child index
+
+
 def register_branching(reg):
+    register_slot_flags(reg)
+    register_validate_composition(reg)
     TG = lambda ctx, x: ctx.get(x, "_targets")
     NB = lambda x: isa("NoBranchAdapter", x)
     # BAD(x, f): below element x (reached with no-branch flag f) some element lies at or downstream of a
     # NoBranchAdapter and has more than one target.   Defined by its unfolding (least fixed point; both directions used)
-    BAD = z3.Function("Branch.bad", IntS, BoolS, BoolS)
-    BW = z3.Function("Branch.bad.child", IntS, BoolS, IntS)   # witness child index
+    BAD, BW = BRANCH_BAD, BRANCH_BAD_CHILD
 
     def bad_axioms(ctx):
         x = z3.Int("bx_x")
@@ -1017,4 +1038,192 @@ def register_branching(reg):
                                                    "curr_targets": TList(TRef("IInput"))}),
                2: dict(invariant=cb_sound2, locals={"targets": TList(ItemT), "target": TRef(None)})},
         note="BAD is the least predicate closed under: an element at/below a NoBranchAdapter with >1 targets, or an output-like child that is BAD",
+    ))
+
+
+# =================================================================================================
+# needs_push / needs_pull of every slot class (C19.0): the flags the dead-link rule reads
+# =================================================================================================
+def register_slot_flags(reg):
+    """One unit per finam class that is an input, output or adapter: the property the class resolves to returns the
+    flag its behaviour demands.  The expectation is derived from the class table of the real source:
+      needs_push  <=>  the element acts on notifications: it is a plain Output (it pushes), or it overrides the
+                       notification hook (`_source_updated` of adapters, `source_updated` of CallbackInput);
+      needs_pull  <=>  the element acts on requests only: a plain Input (it pulls), or an output whose `get_data`
+                       is overridden to compute on demand (CallbackOutput)."""
+    repo = getattr(reg, "repo", None)
+    if repo is None:
+        return
+    ad, inp, out = repo.cls("Adapter"), repo.cls("Input"), repo.cls("Output")
+    iad = repo.cls("IAdapter")
+    seen = set()
+    for ci in sorted(repo.classes.values(), key=lambda c: c.name):
+        if not (inp in ci.mro or out in ci.mro) or ci.name in seen:
+            continue
+        seen.add(ci.name)
+        is_adapter = ad in ci.mro
+        if is_adapter:
+            hook = repo.lookup_method(ci, "_source_updated")
+            push = hook is not None and hook.cls is not ad and hook.cls is not iad
+            pull = False
+        elif out in ci.mro:
+            gd = repo.lookup_method(ci, "get_data")
+            pull = gd is not None and gd.cls is not out
+            push = not pull
+        else:
+            su = repo.lookup_method(ci, "source_updated")
+            push = su is not None and su.cls is not inp
+            pull = not push
+        for attr, want in (("needs_push", push), ("needs_pull", pull)):
+            fi = repo.lookup_method(ci, attr)
+            if fi is None or "abstractmethod" in fi.decorators:
+                continue
+            REPLAY[fi.qual] = "slot_flags.py"
+            reg.add(Contract(fi.qual, self_cls=ci.name, props=["C19.0"], params={}, result=Bool, pure=True, modifies=lambda ctx: [],
+                             ensures=lambda ctx, r, want=want: r.e == z3.BoolVal(want),
+                             name=f"{attr}<{ci.name}>", primary=False))
+
+
+# =================================================================================================
+# Composition._validate_composition (C19.6): rejects exactly the topologies that break one of the five rules
+# =================================================================================================
+def slot_vals(d):
+    """(n, j -> element) of dict.values()"""
+    return d.keys.n, (lambda j: d.val(ex_key(d.keys.at(j))))
+
+
+def ex_key(k):
+    return k.e
+
+
+def input_bad(ctx, x):
+    return Or(unconnected_or_static_mismatch(ctx, x), And(CONN(x), dead_link(ctx, x)))
+
+
+def comp_inputs_bad(ctx, c, upto=None):
+    d = ctx.get(c, "$inputs")
+    j = z3.Int("vj")
+    n = d.keys.n if upto is None else upto
+    return z3.Exists([j], And(0 <= j, j < n, input_bad(ctx, d.val(d.keys.at(j).e).e)))
+
+
+def comp_outputs_bad(ctx, c, upto=None):
+    d = ctx.get(c, "$outputs")
+    j = z3.Int("vo")
+    n = d.keys.n if upto is None else upto
+    return z3.Exists([j], And(0 <= j, j < n, BRANCH_BAD(d.val(d.keys.at(j).e).e, z3.BoolVal(False))))
+
+
+DOWNEND = z3.Function("Downstream.end", IntS, IntS, BoolS)   # x is an end input (not an adapter) reachable downstream of element o
+DOWNEND_W = z3.Function("Downstream.end.child", IntS, IntS, IntS)
+
+
+def downend_axioms(ctx):
+    """least predicate closed under: a non-output target is an end; an end below an output-like target is an end"""
+    o, x, i = z3.Ints("de_o de_x de_i")
+    tg = ctx.get(o, "_targets")
+    t = tg.at(i).e
+    direct = lambda k: And(0 <= k, k < tg.n, tg.at(k).e == x, Not(isa("IOutput", x)))
+    below = lambda k: And(0 <= k, k < tg.n, isa("IOutput", tg.at(k).e), DOWNEND(tg.at(k).e, x))
+    w = DOWNEND_W(o, x)
+    return [
+        z3.ForAll([o, x, i], Implies(Or(direct(i), below(i)), DOWNEND(o, x)), patterns=[z3.MultiPattern(DOWNEND(o, x), t)]),
+        z3.ForAll([o, x], Implies(DOWNEND(o, x), Or(direct(w), below(w))), patterns=[DOWNEND(o, x)]),
+        z3.ForAll([o, i], Implies(And(0 <= i, i < tg.n), And(t > 0, DEPTH(t) < DEPTH(o))), patterns=[t]),
+        z3.ForAll([o], DEPTH(o) >= 0, patterns=[DEPTH(o)]),
+    ]
+
+
+def missing_spec(ctx, comps):
+    """C19 rule 3: something linked to the listed components belongs to a component that is not listed
+    (deterministic bound names: the formula is built identically wherever it is used)"""
+    j, k, j2, k2, x = z3.Ints("ms_j ms_k ms_j2 ms_k2 ms_x")
+    ins = lambda q: ctx.get(comps.at(q).e, "$inputs")
+    outs = lambda q: ctx.get(comps.at(q).e, "$outputs")
+    val = lambda d, q: d.val(d.keys.at(q).e).e
+    owned_out = lambda o: z3.Exists([j2, k2], And(0 <= j2, j2 < comps.n, 0 <= k2, k2 < outs(j2).keys.n, val(outs(j2), k2) == o))
+    owned_in = lambda y: z3.Exists([j2, k2], And(0 <= j2, j2 < comps.n, 0 <= k2, k2 < ins(j2).keys.n, val(ins(j2), k2) == y))
+    up = z3.Exists([j, k], And(0 <= j, j < comps.n, 0 <= k, k < ins(j).keys.n, Not(owned_out(ROOT2(val(ins(j), k))))))
+    down = z3.Exists([j, k, x], And(0 <= j, j < comps.n, 0 <= k, k < outs(j).keys.n, DOWNEND(val(outs(j), k), x), Not(owned_in(x))))
+    return Or(up, down)
+
+
+def topology_violation(ctx, comp_ref):
+    comps = ctx.get(comp_ref, "_components")
+    j = z3.Int("tv_j")
+    c = comps.at(j).e
+    return Or(z3.Exists([j], And(0 <= j, j < comps.n, Or(comp_inputs_bad(ctx, c), comp_outputs_bad(ctx, c)))), missing_spec(ctx, comps))
+
+
+def slots_typed(ctx):
+    c = z3.Int("st_c")
+    k = z3.Const("st_k", sv.StrS)
+    di, do = ctx.get(c, "$inputs"), ctx.get(c, "$outputs")
+    return And(z3.ForAll([c, k], Implies(di.dom(k), And(di.val(k).e > 0, isa("IInput", di.val(k).e))), patterns=[di.val(k).e]),
+               z3.ForAll([c, k], Implies(do.dom(k), And(do.val(k).e > 0, isa("IOutput", do.val(k).e))), patterns=[do.val(k).e]))
+
+
+def register_validate_composition(reg):
+    def comps_of(ctx):
+        return ctx.get(ctx.self, "_components")
+
+    def pre(ctx):
+        comps = comps_of(ctx)
+        j = z3.Int(sv.uid("pj"))
+        x = z3.Int(sv.uid("px"))
+        return And(
+            z3.ForAll([j], Implies(And(0 <= j, j < comps.n), comps.at(j).e > 0)),
+            # the slot tables hold inputs / outputs (IOManager)
+            slots_typed(ctx),
+            # sources are outputs or adapters (Input.source setter): a connected chain ends in an output
+            z3.ForAll([x], Implies(CONN(x), Or(isa("IOutput", ROOT2(x)), isa("IInput", ROOT2(x)))), patterns=[ROOT2(x)]),
+        )
+
+    def viol(ctx):
+        return topology_violation(ctx, ctx.self)
+
+    def done_ok(ctx, k):
+        comps = comps_of(ctx)
+        j = z3.Int(sv.uid("dj"))
+        c = comps.at(j).e
+        return z3.ForAll([j], Implies(And(0 <= j, j < k), And(Not(comp_inputs_bad(ctx, c)), Not(comp_outputs_bad(ctx, c)))))
+
+    def inv1(ctx):
+        return done_ok(ctx, ctx.k)
+
+    def inv2(ctx):
+        c = ctx.local("comp").e
+        return And(c > 0, Not(comp_inputs_bad(ctx, c, upto=ctx.k)))
+
+    def inv3(ctx):
+        c = ctx.local("comp").e
+        return And(c > 0, Not(comp_inputs_bad(ctx, c)), Not(comp_outputs_bad(ctx, c, upto=ctx.k)))
+
+    def all_connected(ctx, comps):
+        j, k = z3.Ints("ac_j ac_k")
+        d = ctx.get(comps.at(j).e, "$inputs")
+        return z3.ForAll([j, k], Implies(And(0 <= j, j < comps.n, 0 <= k, k < d.keys.n), CONN(d.val(d.keys.at(k).e).e)))
+
+    # _check_missing_components: rule 3 (caller-facing; verified by its own unit)
+    reg.add(Contract(
+        f"{S}._check_missing_components", props=["C19.4"], params={"components": TList(TRef("IComponent"))},
+        requires=lambda ctx: all_connected(ctx, ctx.components),
+        modifies=lambda ctx: [], verify=False,
+        raises={"FinamConnectError": lambda ctx: missing_spec(ctx, ctx.components)},
+        must_raise={"FinamConnectError": lambda ctx: missing_spec(ctx, ctx.components)}, raise_frame_empty=True,
+        ensures=lambda ctx, r: Not(missing_spec(ctx, ctx.components)),
+        note="assumed here (nested set comprehensions / worklist over sets): decided by the bounded stand-in bnd_validate.py",
+    ))
+
+    reg.add(Contract(
+        f"{S}.Composition._validate_composition", self_cls="Composition", props=["C19.6"], params={},
+        requires=pre, modifies=lambda ctx: [],
+        axioms=lambda ctx: [VALIDATED_OK == Not(viol(ctx))],
+        raises={"FinamConnectError": viol}, must_raise={"FinamConnectError": viol}, raise_frame_empty=True,
+        ensures=lambda ctx, r: {"accepted => no rule is violated": Not(viol(ctx)), "accepted => VALIDATED_OK": VALIDATED_OK},
+        loops={1: dict(invariant=inv1, locals={"comp": TRef("IComponent")}),
+               2: dict(invariant=inv2, locals={"comp": TRef("IComponent")}),
+               3: dict(invariant=inv3, locals={"comp": TRef("IComponent")})},
+        call_checks={},
+        note="VALIDATED_OK is defined here: none of the five rules is violated by the link graph at validation time",
     ))
